@@ -240,7 +240,7 @@ func (p *Parser) ParseInfixStringConcatExpression(left ast.Expression, explicit 
 
 func (p *Parser) ParsePostfixExpression(left ast.Expression) (ast.Expression, error) {
 	exp := &ast.PostfixExpression{
-		Meta: p.curToken,
+		Meta: p.curToken.Clone(), // the position is rewritten below, do not touch the parser's current token
 		Left: left,
 	}
 	exp.Operator = p.curToken.Token.Literal
